@@ -176,6 +176,13 @@ pub fn dispatch(op: &str, req: &Value) -> Option<String> {
                 _ => res(rustpython_parser::parse_expression_starts_at(src, "<v>", TextSize::from(k))),
             }
         }
+        #[cfg(rustpython_parser_verif)]
+        "hook_hist" => {
+            // which LR productions were reduced since the process started (generator-completeness evidence only)
+            let h = rustpython_parser::verif_hooks::histogram();
+            let hit: Vec<String> = h.iter().enumerate().filter(|(_, n)| **n > 0).map(|(i, _)| i.to_string()).collect();
+            format!("{{\"hit\":[{}]}}", hit.join(","))
+        }
         "mode_from_str" => match req_str(req, "s").parse::<Mode>() {
             Ok(m) => format!("{{\"ok\":\"{}\"}}", match m { Mode::Module => "Module", Mode::Interactive => "Interactive", Mode::Expression => "Expression" }),
             Err(e) => format!("{{\"err\":{}}}", jstr(&e.to_string())),
